@@ -1442,6 +1442,32 @@ func genSrvSoup(p *prng, thorough bool, w *bufio.Writer) {
 			}
 		}
 	}
+	// teardown with many handlers still running (the handlerDone channel holds 128): the peer hangs up, or commits a
+	// connection error first; then the handlers return. Nothing of the connection may be left behind.
+	crowds := 4
+	if thorough {
+		crowds = 30
+	}
+	for i := 0; i < crowds; i++ {
+		g.newConn(400, 0, 0)
+		g.settings()
+		n := []int{1, 100, 128, 129, 140, 300}[p.intn(6)]
+		var b []byte
+		for k := 0; k < n; k++ {
+			b = append(b, frameBytes(1, 5, g.sid(), g.enc.block(nil, []kv{{k: ":method", v: "GET"}, {k: ":scheme", v: "https"}, {k: ":path", v: "/"}, {k: ":authority", v: "a"}}))...)
+		}
+		g.line("srv %s burst %s", g.id, hexOrDash(b))
+		g.line("srv %s settle", g.id)
+		switch p.intn(3) {
+		case 0:
+			g.line("srv %s burst %s", g.id, hexOrDash(frameBytes(8, 0, 0, u32(0)))) // connection error from the read loop
+			g.line("srv %s settle", g.id)
+		case 1:
+			g.line("srv %s burst %s", g.id, hexOrDash(frameBytes(3, 0, 100001, u32(8)))) // connection error from the stream loop
+			g.line("srv %s settle", g.id)
+		}
+		// the next `new` (or the final `end`) hangs up and releases the handlers
+	}
 	// a peer that goes on sending after a connection error: whichever loop raised it, the octets that keep arriving
 	// must not park anything for good (the reader channel holds 128 frames); the connection handler returns
 	floods := 8
